@@ -3,7 +3,7 @@
 Building twice from one spec yields two structurally identical, independent parsers."""
 import copy
 from decimal import Decimal
-from typing import Any, Callable, Dict, List, Literal, Optional, Set, Tuple, Type, Union
+from typing import Any, Callable, Dict, List, Literal, Optional, OrderedDict, Set, Tuple, Type, Union
 
 from jsonargparse import ActionConfigFile, ActionParser, ArgumentParser, lazy_instance
 from jsonargparse.typing import Path_dc, Path_dw, Path_fc, Path_fr, path_type
@@ -62,6 +62,8 @@ TYPES = {
     "decimal": Decimal,
     "list_D": List[S.D],
     "dict_str_D": Dict[str, S.D],
+    "dict_str_base": Dict[str, S.Base],
+    "odict_str_base": OrderedDict[str, S.Base],
     "opt_callable": Optional[Callable],
 }
 
